@@ -24,6 +24,40 @@ CHECKS = {
             'semantically (final sequent valid by truth table).',
             'Trusts the log wrappers (class attributes, installed from the harness), the 4-rule reference yield on shadows, vf.holmodel.',
             'DESIGN.md 2 C02'),
+    'C03': ('postconditions on the real Term/Type operations (==, hash, subst, subst_type(_inplace), subst_bound, beta_conv/norm, '
+            'abstract_over, incr_boundvars, match, fast_compare) against a shadow reference implementation and a finite-model '
+            'evaluator; object-churn history workload for id recycling',
+            'Exploration: tens of thousands of seeded operations on generated well-typed terms (nested binders, clashing names, '
+            'shared sub-objects, loose-bound arguments, objects built by construction / Term(t) / copy / substitution), each '
+            'compared with textbook de Bruijn operations on tuples, type-checked, and (where evaluable) compared by denotation in '
+            'finite models; millions of equality queries between old wrapper objects and freshly allocated terms.',
+            'Trusts vf/shadow.py reference operations and vf/holmodel.py; id recycling is probabilistic (counter churn_comparisons).',
+            'DESIGN.md 2 C03'),
+    'C05': ('runtime monitor on theory.check_proof of one-step proofs invoking each level-0 arithmetic macro on generated goals; '
+            'returned sequent judged by an independent declared-type exact / 80-digit evaluator',
+            'Exploration: ~25k (quick) goals over the ten trusted arithmetic macros, including goals at types the macro is not '
+            'meant for, right-hand sides computed under wrong semantics, zero divisors, fractional and negative-base powers, '
+            'float-ulp neighbours of irrational constants and polynomial identities; a violation is an accepted statement that '
+            'the evaluator finds definitely false (exact rational arithmetic, or mpmath at 80 digits with a 1e-45 margin).',
+            'Trusts vf/arith.py (semantics taken from library definitions: truncated nat minus, x/0 = 0, real power, sqrt), mpmath.',
+            'DESIGN.md 2 C05'),
+    'C06': ('runtime monitor on acceptance of one-step z3 / sympy proofs by the real checker; counter-model search under HOL '
+            'semantics (three-valued bounded evaluator + independent guard-correct Z3 encoding for closed sub-sentences; '
+            'exact/80-digit evaluation at sampled points for SymPy goals)',
+            'Exploration: generated first-order arithmetic goals with quantifiers over bool/nat/int/real/uninterpreted types in '
+            'positive and negative positions, nat subtraction, division, of_nat, ite/min/max/abs, function variables (Z3 step) and '
+            'real (dis)equalities / inequalities with partial operators, optionally under an interval premise (SymPy step); a '
+            'violation is an accepted goal with a definite counter-model.',
+            'Trusts vf/hol3.py (Kleene evaluation; unsat answers of its own Z3 encoding for closed function-free sentences), vf/arith.py.',
+            'DESIGN.md 2 C06'),
+    'C17': ('icontract class invariant on CongClosure after every public call + naive fixpoint closure as reference model for '
+            'test/explain + proof checker on CongClosureHOL explanations',
+            'Exploration, exhaustive on finite sub-spaces: all merge sequences of length <= 2 (quick) / <= 3 (thorough) over the 36 '
+            'equations on 3 constants, all n! merge orders of generated sets with n <= 5, random interleavings of merge/test/explain '
+            'above; every test answer on every pair is compared with a naive closure, explanations are re-closed, HOL explanations '
+            'are exported and checked by theory.check_proof with conclusion/hypotheses compared on shadows.',
+            'Trusts vf/oracle_c17_naive.py (calibrated on hand-computed instances), icontract, the kernel checker for HOL proofs.',
+            'DESIGN.md 2 C17'),
 }
 
 NOT_YET = {}
